@@ -42,7 +42,8 @@ DEFAULT_FEATURES = {
     "match_expr_nested": False,  # match expression anywhere but directly as the returned value: transpiler types it as the function's return type
     "zero_arg_fnvalue": False,   # (p) with p a zero-parameter function value is not a call
     "self_assign": False,
-    "break_in_match": False,     # break inside a match arm inside a loop: natively it only leaves the C switch        # set x x (string): nanoc's evaluator returns garbage   # (- g) with a negative constant global is transpiled to --1: cc fails
+    "break_in_match": False,
+    "void_bare_return": False,   # bare `return` inside a void function: the VM silently ends the program after the call     # break inside a match arm inside a loop: natively it only leaves the C switch        # set x x (string): nanoc's evaluator returns garbage   # (- g) with a negative constant global is transpiled to --1: cc fails
     "print_indirect_call": False,  # (println (f args)) through a function value prints <unknown> natively  # more than one order-sensitive argument in one argument list (native evaluates right-to-left)
 }
 
@@ -775,7 +776,7 @@ class Gen:
         self.block_depth += 1
         try:
             body = self.stmts(sc, n or self.r.randint(1, 3), depth, ret_t)
-            if ret_t is not None and self.f["early_return"] and self.chance(0.15):
+            if ret_t is not None and self.f["early_return"] and self.chance(0.15) and (ret_t != "void" or self.f["void_bare_return"]):
                 body.append(("return", self.expr(sc, ret_t, 2) if ret_t != "void" else None))
                 self.tag("return.early")
             return body
